@@ -175,18 +175,14 @@ Theorem slots_distinct : forall x y vs i, index_of x vs = Some i -> index_of y v
 Proof. exact index_of_inj. Qed.
 Print Assumptions slots_distinct.
 
-(* The refinement is FALSE outside [clean]; one witness per recorded defect class (each replayed
-   on the real interpreter by the check: KNOWN_FINDINGS keys switch:fallthrough:* and
-   static:main-scope). *)
-Theorem switch_fallthrough_refuted :
-  wf w_fallthrough = true /\ run_impl no_catch 50 w_fallthrough = ("a", EndOk) /\ run_ref no_catch 50 w_fallthrough = ("ab", EndOk).
-Proof. exact switch_fallthrough_refuted_l. Qed.
-Theorem switch_case_group_refuted :
-  wf w_case_group = true /\ run_impl no_catch 50 w_case_group = ("", EndOk) /\ run_ref no_catch 50 w_case_group = ("x", EndOk).
-Proof. exact switch_case_group_refuted_l. Qed.
-Theorem switch_default_not_last_refuted :
-  wf w_default_first = true /\ run_impl no_catch 50 w_default_first = ("d", EndOk) /\ run_ref no_catch 50 w_default_first = ("d1", EndOk).
-Proof. exact switch_default_not_last_refuted_l. Qed.
-Theorem static_in_main_refuted :
-  wf w_static_main = true /\ run_impl no_catch 50 w_static_main = ("11", EndOk) /\ run_ref no_catch 50 w_static_main = ("12", EndOk).
-Proof. exact static_in_main_refuted_l. Qed.
+(* The classes that used to be outside [clean] and have been repaired in /repo (switch fall-through in three
+   positions: 8109483; static in the main script: d3ebf7f): the former `_refuted` witnesses are now inside the
+   theorem, and both interpreters compute PHP's answer on them.  The one class left outside [clean]
+   (closure:falloff-value) has no witness here: the model has no statement values and cannot mirror it. *)
+Theorem repaired_classes :
+  map (run_impl no_catch 50) [w_fallthrough; w_case_group; w_default_first; w_static_main]
+  = [("ab", EndOk); ("x", EndOk); ("d1", EndOk); ("12", EndOk)] /\
+  map (run_ref no_catch 50) [w_fallthrough; w_case_group; w_default_first; w_static_main]
+  = [("ab", EndOk); ("x", EndOk); ("d1", EndOk); ("12", EndOk)] /\
+  forallb clean [w_fallthrough; w_case_group; w_default_first; w_static_main] = true.
+Proof. exact repaired_classes_l. Qed.
